@@ -251,6 +251,26 @@ int main() {
          if (!err.empty()) return err + " after" + out;
          return "ok" + out;
       }
+      if (t[1] == "rest") {
+         // for every element: argsAsString( true) and argsAsString( false) (which reads through the
+         // private isSingleArg()); an exception of one call is printed in place as !<class>
+         std::vector<std::string> ws{progName};
+         for (size_t k = 2; k < t.size(); ++k) { std::string w; if (!vh::hexDecodeStr(t[k], w)) return "bad-op"; ws.push_back(w); }
+         Argv av(ws);
+         std::string out;
+         std::string err = vh::guarded([&] {
+            cpa::detail::ArgListParser alp(av.argc, av.argv.get());
+            for (auto ai = alp.begin(); ai != alp.end(); ++ai) {
+               for (int self = 1; self >= 0; --self) {
+                  std::string r;
+                  std::string e = vh::guarded([&] { r = ai.argsAsString(self == 1); });
+                  out += std::string(self ? " T=" : " F=") + (e.empty() ? vh::hexOut(r) : "!" + e.substr(6));
+               }
+            }
+         });
+         if (!err.empty()) return err + " after" + out;
+         return "ok" + out;
+      }
       if (t[1] == "gdef") {
          // pa gdef members=<n> -- <m>:<keyspec> ...  : n member handlers are created first, then the
          // definitions are made in the given sequence; result: ok, or the first refusal
